@@ -536,6 +536,39 @@ func Run(args []string) *rep.Report {
 	if err != nil {
 		r.SetExtra("read_error", err.Error())
 	}
+	// consecutive sends through the one sender: what goes on the wire is a function of the message alone -- also when the
+	// address lists of two messages are made of the same bytes, cut differently
+	{
+		whole := multiaddr.StringCast("/ip4/11.22.33.44/tcp/9999")
+		p1, p2 := multiaddr.StringCast("/ip4/11.22.33.44"), multiaddr.StringCast("/tcp/9999")
+		for round, list := range [][]multiaddr.Multiaddr{{whole}, {p1, p2}, {whole}, {p2, p1}, {p1, p2}} {
+			m := message.Message{Cid: theCid(round)}
+			m.SetAddrs(list)
+			lastBody = nil
+			if err := snd.Send(context.Background(), m); err != nil {
+				r.Diverge(rep.Divergence{Key: "sender-error", Detail: fmt.Sprintf("consecutive sends, round %d: %v", round, err)})
+				continue
+			}
+			execs++
+			var got message.Message
+			if err := got.UnmarshalCBOR(bytes.NewReader(lastBody)); err != nil {
+				r.Diverge(rep.Divergence{Key: "sender-wire", Detail: fmt.Sprintf("consecutive sends, round %d: %v", round, err)})
+				continue
+			}
+			addrs, _ := got.GetAddrs()
+			var want []string
+			for _, a := range list {
+				want = append(want, a.String()+"/p2p/"+senderID.String())
+			}
+			var have []string
+			for _, a := range addrs {
+				have = append(have, a.String())
+			}
+			if fmt.Sprint(have) != fmt.Sprint(want) {
+				r.Diverge(rep.Divergence{Key: "sender-wire", Detail: fmt.Sprintf("consecutive sends through one sender, round %d: addresses %v sent, %v on the wire", round, want, have)})
+			}
+		}
+	}
 	r.SetExtra("codec_executions", execs)
 	r.SetExtra("p2p_sender_messages", p2pSent)
 	return r
